@@ -23,11 +23,12 @@ TApp == Ev("app") /\ k' = (CASE e.op = "close" -> AppClose(k, e.side, e.t)
                              [] e.op = "conn_done" -> TasksDone(k, "srv", e.t)
                              [] e.op = "accepted_conn" -> Accepted(k, "srv")
                              [] OTHER -> k)
+TSum == Ev("appsum") /\ k' = k
 TPanic == Ev("panic") /\ k' = Fail(k, "panic inside the stack")
 TFinal == Ev("final") /\ k' = Final(k, e.cli_done, e.srv_done, e.t)
 
 TraceInit == l = 1 /\ k = LInit(0, FALSE) /\ flag = FALSE
-TraceNext == (TReset \/ TDgram \/ TDlv \/ TUndeliverable \/ TQ \/ TApp \/ TPanic \/ TFinal)
+TraceNext == (TReset \/ TDgram \/ TDlv \/ TUndeliverable \/ TQ \/ TApp \/ TSum \/ TPanic \/ TFinal)
              /\ flag' = (k.ok /\ ~k'.ok)
 ContractHolds == k.ok \/ PrintT(<<"CONTRACT", k.why>>) = FALSE
 \* reported once, at the step that broke the contract; validation of the following runs continues
